@@ -230,6 +230,25 @@ def build_universe(seed, tier):
 _cache = {}
 
 
+def write_sources(seed, tier):
+    """write harness/src/gen/mod.rs and src/gen_abi/mod.rs for (seed, tier) without building"""
+    U = build_universe(seed, tier)
+    text, tuples, names = TG.render_gen_rs(U["items"], [(r["ty"], r["vals"]) for r in U["roots"]], U.get("extra_rs", ""))
+    from . import abigen
+    fams = abigen.families(U)
+    if tier == "quick":
+        fams = fams[:6]
+    abi_text = abigen.render(U, fams)
+    ABI_RS = os.path.join(C.HARNESS, "src", "gen_abi", "mod.rs")
+    with C.Lock("gen"):
+        os.makedirs(os.path.dirname(GEN_RS), exist_ok=True)
+        os.makedirs(os.path.dirname(ABI_RS), exist_ok=True)
+        if not os.path.exists(GEN_RS):
+            open(GEN_RS, "w").write(text)
+        if not os.path.exists(ABI_RS):
+            open(ABI_RS, "w").write(abi_text)
+
+
 def ensure(seed, tier, extra_roots_fn=None):
     """Generate gen/mod.rs for (seed, tier), build the harness, probe layouts. Returns (universe, binary) or
     (None, log) if the harness does not build."""
